@@ -14,7 +14,7 @@ pub static DEF: PropDef = PropDef {
 78 xx, IDAT with and without length/CRC) and zlib/gzip/zip/PNG wrappers around streams from four real compressors and \
 the independent stream generator (plaintext sizes straddling the 1024-byte threshold; PNG chunkings with zero-length \
 chunks, tiny payloads, trailing bytes, bytes before the Adler-32), then truncated / bit-flipped / spliced; plus every \
-byte string of length <=3 (quick) / <=4 (thorough). Oracle: expand_zlib_chunks(F) is Ok without panic; \
+byte string of length <=3 (quick) / <=4 (thorough). Oracle: expand_zlib_chunks(F, level) is Ok without panic (level = 0 for 13 files in 16, else 1, 2 or 9, a function of F); \
 recreated_zlib_chunks(expanded) is Ok and writes exactly F; decompress_zstd(compress_zstd(F), |expanded|+4096) == F. \
 Non-trivial = the expanded container holds at least one DEFLATE or PNG chunk (per my own container model) or F contains \
 a signature look-alike; distinct = hash of F.",
